@@ -385,6 +385,60 @@ def gen_stream(rng, geom, nblocks, maxblock, big=False, ringfill=False):
                     last = b["content"]
     return out
 
+def ring_margin():
+    """LZ4_DECODER_RING_BUFFER_SIZE(n) - 65536 - n of the working tree (generated constant DECODER_RING_MARGIN)"""
+    from vlib import gen_const
+    return gen_const("DECODER_RING_MARGIN")
+
+def gen_ringmin(rng, margin=None):
+    """the wrap of a decoding ring buffer of exactly 65536 + margin + maxblock bytes (default margin: the header's,
+    i.e. LZ4_DECODER_RING_BUFFER_SIZE(maxblock)): literal-only blocks fill
+    the first lap up to `lap` bytes (fewer than maxblock bytes remain), then a block at the ring start whose first match
+    reaches as far back as the format allows, right after a literal run that the fast loop copies with LZ4_wildCopy32.
+    returns (blocks, maxblock, lap)"""
+    maxblock = rng.choice([1024, 1024, 300, 4000])
+    if margin is None:
+        margin = ring_margin()
+    lap = 65536 + margin + rng.choice([1, 1, 2, 8, 15])        # ring size - lap < maxblock: the caller wraps
+    out = []
+    total = bytearray()
+    while len(total) < lap:
+        n = min(maxblock, lap - len(total))
+        content = rng.randbytes(n)
+        out.append({"hist": bytes(total[-65536:]), "blk": encode_seqs([], content), "content": content, "profile": "ringmin_lit"})
+        total += content
+    ll = rng.choice([33, 33, 65, 17, 34, 40, 47, 15, 14, 1])
+    lits = rng.randbytes(ll)
+    off = 65535 - rng.choice([0, 0, 0, 1, 7, 14])
+    ml = rng.choice([4, 8, 8, 19, 40])
+    last = rng.randbytes(rng.choice([40, 64, 100]))
+    seqs = [(lits, off, ml)]
+    content = decode_seqs(bytes(total), seqs, last)
+    out.append({"hist": bytes(total[-65536:]), "blk": encode_seqs(seqs, last), "content": content, "profile": "ringmin_wrap"})
+    return out, maxblock, lap
+
+def ring14_witness():
+    """the session of Proofs/DecRingMin.v (C05_ring_min_refuted): ring of 65536+14+1024 bytes, lap bytes i mod 251 up to
+    65551, wrap block 33 literals | offset 65535 length 8 | 40 literals with literal bytes 160 + i mod 16"""
+    lapdata = bytes(i % 251 for i in range(65551))
+    out = []
+    pos = 0
+    while pos < 65551:
+        n = min(1024, 65551 - pos)
+        out.append({"hist": lapdata[max(0, pos - 65536):pos], "blk": encode_seqs([], lapdata[pos:pos + n]), "content": lapdata[pos:pos + n], "profile": "ring14_lit"})
+        pos += n
+    lits = bytes(160 + i % 16 for i in range(73))
+    seqs = [(lits[:33], 65535, 8)]
+    content = decode_seqs(lapdata, seqs, lits[33:])
+    out.append({"hist": lapdata[-65536:], "blk": encode_seqs(seqs, lits[33:]), "content": content, "profile": "ring14_wrap"})
+    return out, 1024, 65551
+
+def model_ringwrap(orc2, fastloop, ring, lap, blk, cap):
+    """Model/DecRingWrap.v (oracle dec2): the wrap call with the dictionary in the same memory; returns (ret, ok, md5(ring afterwards))"""
+    a = orc2.ask("ringwrap", hx(ring), str(lap), hx(blk), str(cap), "1" if fastloop else "0")
+    t = a.split()
+    return int(t[0]), t[1], t[3]
+
 def _ext(v):
     o = bytearray()
     while v >= 255:
